@@ -50,7 +50,6 @@ theorem lenOf_le (op op2 : Nat) (h1 : op < 256) (h2 : op2 < 256) : lenOf op op2 
     cases hr : formReg src op2 with
     | ok f => simp [hr] at c ⊢; omega
     | unknown => simp [hr]
-    | hang => simp [hr]
 
 /-! ### `RetrieveData` -/
 
@@ -159,10 +158,10 @@ theorem finish_len (lower : Bool) (syms : Syms) (a op pl : Nat) (f : Form) (data
 def selLen (pl : Nat) : RegSel → Nat
   | .ok f => pl + 1 + f.n
   | .unknown => pl + 1
-  | .hang => 0
 
 theorem prefixed_len (img : Image) (lower : Bool) (syms : Syms) (a op pl nData : Nat) (pfx what : String) (sel : Nat → RegSel) :
-    (prefixed img lower syms a op pl nData pfx what sel).info.len = 0 ∨
+    ((prefixed img lower syms a op pl nData pfx what sel).info.len = 0 ∧
+      (prefixed img lower syms a op pl nData pfx what sel).msgs ≠ []) ∨
     ∃ o2 e2, retrieveData img lower (a + pl) 1 = (some o2, e2) ∧
       (prefixed img lower syms a op pl nData pfx what sel).info.len = selLen pl (sel (o2.getD 0 0)) ∧
       ((prefixed img lower syms a op pl nData pfx what sel).msgs = [] →
@@ -171,11 +170,10 @@ theorem prefixed_len (img : Image) (lower : Bool) (syms : Syms) (a op pl nData :
   cases h2 : retrieveData img lower (a + pl) 1 with
   | mk o e =>
     cases o with
-    | none => left; rfl
+    | none => left; exact ⟨rfl, retrieveData_none_msg img lower _ 1 e h2⟩
     | some o2 =>
       simp only
       cases hs : sel (o2.getD 0 0) with
-      | hang => left; rfl
       | unknown =>
         right
         refine ⟨o2, e, rfl, ?_, ?_⟩
@@ -190,7 +188,7 @@ theorem prefixed_len (img : Image) (lower : Bool) (syms : Syms) (a op pl nData :
         cases h3 : retrieveData img lower (a + pl + 1) f.n with
         | mk o3 e3 =>
           cases o3 with
-          | none => left; rfl
+          | none => left; exact ⟨rfl, retrieveData_none_msg img lower _ f.n e3 h3⟩
           | some data =>
             right
             refine ⟨o2, e, rfl, ?_, ?_⟩
@@ -208,10 +206,10 @@ theorem retrieveData_zero (img : Image) (lower : Bool) (a : Nat) : retrieveData 
   simp [retrieveData, retrieveDataF]
 
 /-- What `raw` reports for an instruction line (`AsData` false, `DataSize` -1): length 0 (nothing decoded), or the length the two
-opcode bytes decide – the first one fetched at `a`, the second one (if the first is a prefix) fetched at `a + prefixLen`; and if
+opcode bytes decide (length 0 only together with a message) – the first one fetched at `a`, the second one (if the first is a prefix) fetched at `a + prefixLen`; and if
 no message was written (no failed fetch, no `unknown … opcode`), the byte counter `nData` equals that length. -/
 theorem raw_spec (img : Image) (lower : Bool) (syms : Syms) (a : Nat) :
-    (raw img lower syms a false (-1)).info.len = 0 ∨
+    ((raw img lower syms a false (-1)).info.len = 0 ∧ (raw img lower syms a false (-1)).msgs ≠ []) ∨
     ∃ ops e op, retrieveData img lower a 1 = (some ops, e) ∧ op = ops.getD 0 0 ∧
       (∃ op2, op2 < 256 ∧ (prefixLen op = 0 ∨
           ∃ o2 e2, retrieveData img lower (a + prefixLen op) 1 = (some o2, e2) ∧ op2 = o2.getD 0 0) ∧
@@ -222,7 +220,7 @@ theorem raw_spec (img : Image) (lower : Bool) (syms : Syms) (a : Nat) :
   cases h1 : retrieveData img lower a 1 with
   | mk o e =>
     cases o with
-    | none => left; rfl
+    | none => left; exact ⟨rfl, retrieveData_none_msg img lower a 1 e h1⟩
     | some ops =>
       have hop : ops.getD 0 0 < 256 := getD_lt ops (retrieveData_lt img lower a 1 ops e h1) 0
       simp only [Bool.false_eq_true, if_false]
@@ -262,7 +260,7 @@ theorem raw_spec (img : Image) (lower : Bool) (syms : Syms) (a : Nat) :
           cases h2 : retrieveData img lower (a + 1) f.n with
           | mk o2 e2 =>
             cases o2 with
-            | none => left; rfl
+            | none => left; exact ⟨rfl, retrieveData_none_msg img lower _ f.n e2 h2⟩
             | some data =>
               right
               refine ⟨ops, e, op, rfl, hopd.symm, ⟨0, by omega, Or.inl (by simp [prefixLen, hf]), ?_⟩, ?_⟩
@@ -273,7 +271,7 @@ theorem raw_spec (img : Image) (lower : Bool) (syms : Syms) (a : Nat) :
         cases h2 : retrieveData img lower (a + 1) n with
         | mk o2 e2 =>
           cases o2 with
-          | none => left; rfl
+          | none => left; exact ⟨rfl, retrieveData_none_msg img lower _ n e2 h2⟩
           | some pd =>
             simp only
             have hp := prefixed_len img lower syms a op (1 + n) (1 + n) (prefixString lower k pd) "mem" memSel
